@@ -22,7 +22,11 @@ TEXT = {
        "(no_fuel, compact_no_fuel, skip_no_fuel, compact_skip_no_fuel, async_*_skip_no_fuel, iter_skip_no_fuel), hence read_value_or_error / compact_read_value_or_error / skip_count_or_error; every successful sub-read "
        "consumes input (read_progress); what a successful read builds is bounded by 3 x input length (+1) (read_weight_linear, compact_read_weight_linear); a successful read never depends on bytes after those it consumed "
        "(read_extends, compact_read_extends) and therefore every strict prefix of the encoding of any well-typed value, structs included, is rejected with an error by the readers (prefix_rejected, compact_prefix_rejected) and by the in-memory skippers (skip_extends, skip_prefix_rejected, compact_skip_prefix_rejected).",
-  note="Theorems: the runtime readers and skippers. Emitted (generated) decoders are covered by the second stream of this check (C09gen), by observation and T1 against the template model, not by a totality theorem: "
+  note="Theorems: the runtime readers and skippers (Props/C09.lean) and the EMITTED decoders as modelled by TGen/Decode.lean (Props/C09Gen.lean): for every closed document, declared type, byte string, reader state and fuel the "
+       "template model never reaches a panic branch under the checked binary / LE readers and the compact reader (gen_total_binary, gen_total_compact, gen_decode_total_*), a budget linear in the input times the longest typedef chain is never "
+       "exhausted (gen_no_hang_binary, gen_no_hang_compact; the modelled decode entry point's own budget for typedef-free documents: gen_decode_no_hang_binary), hence value or error (gen_value_or_error_*); a successful decode consumes input "
+       "(gen_ok_consumes), does not depend on what follows (gen_extends), and every strict prefix of an accepted encoding is rejected with an error (gen_prefix_rejected_binary). Where the real emitted code leaves this model on arbitrary bytes is exactly the list of known findings below. "
+       "The second stream of this check (C09gen) ties that model to the compiled emitted code: "
        "adversarial mutations of valid encodings and injected unknown fields under binary, LE and compact, in memory and asynchronously with random chunking, on plain and keep_unknown_fields builds, with a peak-allocation "
        "oracle and nesting bombs on a 2 MiB stack. Known findings there (reported as KNOWN-FINDING, each identified by its panic site / abort call site): D10 no depth bound in emitted recursive decode, D34 async decoders "
        "pre-allocate from the wire count, D37 retention under compact reads out of bounds, and D12 / D29 as they appear on byte strings. Allocation: read_weight_linear is an ok-path, model-level bound on the value the interpreter builds (one Vec slot per node, one copy per payload byte; pilota's "
